@@ -69,7 +69,21 @@ def check(el, ops, probe_syms):
         return A, F('output-differs-after-remove', {'A': va['string'][1][:200], 'B': vb['string'][1][:200]})
     if va['ordered'] != vb['ordered']:
         return A, F('order-differs-after-remove', {'A': va['ordered'], 'B': vb['ordered']})
-    for sym in probe_syms:
+    # alternatives the removals freed, judged by the oracle: symbols that could not join the children held at some
+    # earlier point but can join the survivors ("an exclusive alternative becomes available again") are always probed
+    freed = []
+    if A.dfa is not None:
+        held = []
+        for op, res in zip(A.ops, A.results):
+            if res[0] != 'ok':
+                continue
+            if op[0] == 'add':
+                held.append(op[1])
+                for a in A.alphabet:
+                    if a not in freed and not A.dfa.completable(parikh(held + [a])) \
+                            and A.dfa.completable(parikh(survivors + [a])):
+                        freed.append(a)
+    for sym in freed + [x for x in probe_syms if x not in freed]:
         ra = call(build(el, ops).e.add_child, stub(sym))
         rb = call(build(el, twin_ops).e.add_child, stub(sym))
         if ra.verdict() != rb.verdict():
